@@ -329,6 +329,8 @@ func (p *Peer) loadAndPublishReplicators(ctx context.Context) error {
 
 // handleReplicatorRetries manages retries for failed replication attempts.
 func (p *Peer) handleReplicatorRetries(ctx context.Context) {
+	// A retry pass started by an earlier run of this node can not be in progress anymore.
+	p.resetRetryingReplicators(ctx)
 	for {
 		select {
 		case <-ctx.Done():
@@ -336,6 +338,56 @@ func (p *Peer) handleReplicatorRetries(ctx context.Context) {
 
 		case <-time.After(retryLoopInterval):
 			p.retryReplicators(ctx)
+		}
+	}
+}
+
+// resetRetryingReplicators clears the retrying state of every replicator retry record.
+//
+// The state is persisted, so a node that stopped during a retry pass would otherwise
+// find the record marked as retrying forever and never retry that replicator again.
+func (p *Peer) resetRetryingReplicators(ctx context.Context) {
+	peerstore := datastore.PeerstoreFrom(p.db.Rootstore())
+	iter, err := peerstore.Iterator(ctx, corekv.IterOptions{
+		Prefix: []byte(keys.REPLICATOR_RETRY_ID),
+	})
+	if err != nil {
+		if !errors.Is(err, corekv.ErrDBClosed) {
+			log.ErrorContextE(ctx, "Failed iterate replicator retry ID keys", err)
+		}
+		return
+	}
+	stale := map[string]retryInfo{}
+	for {
+		hasNext, err := iter.Next()
+		if err != nil {
+			log.ErrorContextE(ctx, "Failed to get next replicator retry ID key", err)
+			break
+		}
+		if !hasNext {
+			break
+		}
+		value, err := iter.Value()
+		if err != nil {
+			log.ErrorContextE(ctx, "Failed to get replicator retry value", err)
+			continue
+		}
+		rInfo := retryInfo{}
+		if err := cbor.Unmarshal(value, &rInfo); err != nil || !rInfo.Retrying {
+			continue
+		}
+		stale[string(iter.Key())] = rInfo
+	}
+	closeQueryResults(iter)
+	for key, rInfo := range stale {
+		rInfo.Retrying = false
+		b, err := cbor.Marshal(rInfo)
+		if err != nil {
+			log.ErrorContextE(ctx, "Failed to marshal replicator retry info", err)
+			continue
+		}
+		if err := peerstore.Set(ctx, []byte(key), b); err != nil {
+			log.ErrorContextE(ctx, "Failed to reset replicator retry info", err)
 		}
 	}
 }
